@@ -1,3 +1,634 @@
 package main
 
-func lockRulesC02(c *Ctx) {}
+// E4 — locks as typestate: lock classes are struct fields; a forward dataflow
+// over the SSA CFG computes the must-held and may-held lock sets, with
+// function summaries for wrappers that return holding a lock.
+
+import (
+	"fmt"
+	"go/token"
+	"go/types"
+	"sort"
+	"strings"
+
+	"golang.org/x/tools/go/ssa"
+)
+
+type lockOp struct {
+	Class string
+	Kind  string // "lock", "rlock", "unlock", "runlock", "trylock", "tryrlock", "acquire", "tryacquire", "release"
+}
+
+// lockClassOf names the lock a receiver address denotes: "DB.mu", "DB.pos.Mutex", "DB.execSem".
+func lockClassOf(v ssa.Value) string {
+	// pointer-typed field load (semaphores): *(&x.f)
+	if u, ok := v.(*ssa.UnOp); ok && u.Op == token.MUL {
+		if fa, ok := u.X.(*ssa.FieldAddr); ok {
+			return fieldChain(fa)
+		}
+	}
+	if fa, ok := v.(*ssa.FieldAddr); ok {
+		return fieldChain(fa)
+	}
+	for _, o := range origins(v) {
+		if o == v {
+			continue
+		}
+		if s := lockClassOf(o); s != "" {
+			return s
+		}
+	}
+	if g, ok := v.(*ssa.Global); ok {
+		return "global:" + shortName(g.String())
+	}
+	return ""
+}
+
+func fieldChain(fa *ssa.FieldAddr) string {
+	name := fieldAddrName(fa)
+	if inner, ok := fa.X.(*ssa.FieldAddr); ok {
+		f := name[strings.IndexByte(name, '.')+1:]
+		return fieldChain(inner) + "." + f
+	}
+	return name
+}
+
+func classifyLockCall(c ssa.CallInstruction) (lockOp, bool) {
+	nm := calleeName(c)
+	a := c.Common().Args
+	var kind string
+	switch nm {
+	case "(*sync.Mutex).Lock", "(*sync.RWMutex).Lock":
+		kind = "lock"
+	case "(*sync.RWMutex).RLock":
+		kind = "rlock"
+	case "(*sync.Mutex).Unlock", "(*sync.RWMutex).Unlock":
+		kind = "unlock"
+	case "(*sync.RWMutex).RUnlock":
+		kind = "runlock"
+	case "(*sync.Mutex).TryLock", "(*sync.RWMutex).TryLock":
+		kind = "trylock"
+	case "(*sync.RWMutex).TryRLock":
+		kind = "tryrlock"
+	case "(*golang.org/x/sync/semaphore.Weighted).Acquire":
+		kind = "acquire"
+	case "(*golang.org/x/sync/semaphore.Weighted).TryAcquire":
+		kind = "tryacquire"
+	case "(*golang.org/x/sync/semaphore.Weighted).Release":
+		kind = "release"
+	case "ls/internal.LockFileExclusive":
+		return lockOp{"filelock", "acquire"}, true
+	case "ls/internal.UnlockFile":
+		return lockOp{"filelock", "release"}, true
+	default:
+		return lockOp{}, false
+	}
+	if len(a) == 0 {
+		return lockOp{}, false
+	}
+	cls := lockClassOf(a[0])
+	if cls == "" {
+		cls = "?" + a[0].Type().String()
+	}
+	return lockOp{cls, kind}, true
+}
+
+// lock identity in sets: class + mode ("W"/"R")
+func lk(class string, read bool) string {
+	if read {
+		return class + "(R)"
+	}
+	return class
+}
+
+type lockSet map[string]bool
+
+func (s lockSet) clone() lockSet {
+	n := lockSet{}
+	for k := range s {
+		n[k] = true
+	}
+	return n
+}
+func (s lockSet) String() string {
+	var a []string
+	for k := range s {
+		a = append(a, k)
+	}
+	sort.Strings(a)
+	return "{" + strings.Join(a, ",") + "}"
+}
+func (s lockSet) hasClass(class string) bool { return s[class] || s[class+"(R)"] }
+func intersect(a, b lockSet) lockSet {
+	n := lockSet{}
+	for k := range a {
+		if b[k] {
+			n[k] = true
+		}
+	}
+	return n
+}
+func union(a, b lockSet) lockSet {
+	n := a.clone()
+	for k := range b {
+		n[k] = true
+	}
+	return n
+}
+func equalSet(a, b lockSet) bool {
+	if len(a) != len(b) {
+		return false
+	}
+	for k := range a {
+		if !b[k] {
+			return false
+		}
+	}
+	return true
+}
+
+// lockSummary of a function: what it holds (beyond its entry set) when it returns.
+type lockSummary struct {
+	onSuccess lockSet // must-held extra locks at success returns
+	onFailure lockSet // may-held extra locks at failure returns
+	releases  lockSet // locks released that it did not acquire
+	acquires  lockSet // classes blocking-acquired anywhere in its cone (for the order graph)
+}
+
+type lockAnalysis struct {
+	p        *Prog
+	sum      map[*ssa.Function]*lockSummary
+	inMust   map[*ssa.Function]map[*ssa.BasicBlock]lockSet
+	inMay    map[*ssa.Function]map[*ssa.BasicBlock]lockSet
+	entry    map[*ssa.Function]lockSet // must-held at entry (interprocedural)
+	deferred map[*ssa.Function]lockSet
+	defInstr map[*ssa.Function]map[*ssa.Defer]lockSet
+	pairing  bool // pairing mode: a deferred release discharges the obligation at once
+	busy     map[*ssa.Function]bool
+	order    map[string]map[string]string // A -> B -> witness
+}
+
+func newLockAnalysis(p *Prog) *lockAnalysis {
+	return &lockAnalysis{p: p, sum: map[*ssa.Function]*lockSummary{}, inMust: map[*ssa.Function]map[*ssa.BasicBlock]lockSet{}, inMay: map[*ssa.Function]map[*ssa.BasicBlock]lockSet{},
+		entry: map[*ssa.Function]lockSet{}, deferred: map[*ssa.Function]lockSet{}, defInstr: map[*ssa.Function]map[*ssa.Defer]lockSet{}, busy: map[*ssa.Function]bool{}, order: map[string]map[string]string{}}
+}
+
+// calleeFn resolves the function invoked by a call, looking through sync.Once.Do(closure).
+func (la *lockAnalysis) calleeFns(c ssa.CallInstruction) []*ssa.Function {
+	if calleeName(c) == "(*sync.Once).Do" {
+		if mc, ok := c.Common().Args[1].(*ssa.MakeClosure); ok {
+			return []*ssa.Function{mc.Fn.(*ssa.Function)}
+		}
+	}
+	if f := c.Common().StaticCallee(); f != nil {
+		if la.p.InP(f) && f.Blocks != nil {
+			return []*ssa.Function{f}
+		}
+		return nil
+	}
+	if c.Common().IsInvoke() {
+		return la.resolveInvoke(c.Common().Value, c.Common().Method.Name(), 0)
+	}
+	return nil
+}
+
+// resolveInvoke resolves an interface method call when the receiver value is
+// the result of a production function that returns a concrete type wrapped in
+// the interface (e.g. the io.ReadCloser returned by SnapshotReader).
+func (la *lockAnalysis) resolveInvoke(recv ssa.Value, method string, depth int) []*ssa.Function {
+	if depth > 3 {
+		return nil
+	}
+	var out []*ssa.Function
+	add := func(t types.Type) {
+		if t == nil {
+			return
+		}
+		ms := la.p.SSA.MethodSets.MethodSet(t)
+		for i := 0; i < ms.Len(); i++ {
+			if ms.At(i).Obj().Name() == method {
+				if f := la.p.SSA.MethodValue(ms.At(i)); f != nil && la.p.InP(f) && f.Blocks != nil {
+					out = append(out, f)
+				}
+			}
+		}
+	}
+	for _, o := range origins(recv) {
+		var call *ssa.Call
+		idx := 0
+		switch x := o.(type) {
+		case *ssa.Extract:
+			call, _ = x.Tuple.(*ssa.Call)
+			idx = x.Index
+		case *ssa.Call:
+			call = x
+		case *ssa.Alloc:
+			add(x.Type())
+			continue
+		default:
+			if _, isIface := o.Type().Underlying().(*types.Interface); !isIface {
+				add(o.Type())
+			}
+			continue
+		}
+		if call == nil {
+			continue
+		}
+		g := call.Call.StaticCallee()
+		if g == nil || !la.p.InP(g) || g.Blocks == nil {
+			continue
+		}
+		for _, r := range returns(g) {
+			if idx >= len(r.Results) {
+				continue
+			}
+			for _, ro := range originsOpt(retOperand(r, idx), true) {
+				switch y := ro.(type) {
+				case *ssa.MakeInterface:
+					add(y.X.Type())
+				case *ssa.Extract, *ssa.Call:
+					out = append(out, la.resolveInvoke(ro, method, depth+1)...)
+				}
+			}
+		}
+	}
+	return out
+}
+
+// apply transfers one instruction over (must, may); conditional acquisitions are
+// returned as pending (value -> lock, polarity) and resolved at the block's If.
+type pendingAcq struct {
+	val     ssa.Value
+	lock    string
+	onTrue  bool // bool result: held on the true edge; error result: held on the nil edge
+	isError bool
+	extra   lockSet // wrapper summaries: several locks
+}
+
+func (la *lockAnalysis) step(fn *ssa.Function, in ssa.Instruction, must, may lockSet, pend *[]pendingAcq, record bool) {
+	switch x := in.(type) {
+	case *ssa.Defer:
+		if la.defInstr[fn] == nil {
+			la.defInstr[fn] = map[*ssa.Defer]lockSet{}
+		}
+		if la.defInstr[fn][x] == nil {
+			la.defInstr[fn][x] = lockSet{}
+		}
+		if op, ok := classifyLockCall(x); ok {
+			switch op.Kind {
+			case "unlock", "release":
+				la.deferred[fn][lk(op.Class, false)] = true
+				la.defInstr[fn][x][lk(op.Class, false)] = true
+				if la.pairing {
+					delete(must, lk(op.Class, false))
+					delete(may, lk(op.Class, false))
+				}
+			case "runlock":
+				la.deferred[fn][lk(op.Class, true)] = true
+				la.defInstr[fn][x][lk(op.Class, true)] = true
+				if la.pairing {
+					delete(must, lk(op.Class, true))
+					delete(may, lk(op.Class, true))
+				}
+			}
+			return
+		}
+		// deferred closure / method releasing locks
+		for _, g := range la.deferTargets(x) {
+			s := la.summary(g)
+			for k := range s.releases {
+				la.deferred[fn][k] = true
+				la.defInstr[fn][x][k] = true
+				if la.pairing {
+					delete(must, k)
+					delete(may, k)
+				}
+			}
+		}
+	case *ssa.Call:
+		if op, ok := classifyLockCall(x); ok {
+			switch op.Kind {
+			case "lock":
+				la.acquireEdge(fn, x, may, op.Class, record)
+				must[lk(op.Class, false)] = true
+				may[lk(op.Class, false)] = true
+			case "rlock":
+				la.acquireEdge(fn, x, may, op.Class, record)
+				must[lk(op.Class, true)] = true
+				may[lk(op.Class, true)] = true
+			case "unlock", "release":
+				delete(must, lk(op.Class, false))
+				delete(may, lk(op.Class, false))
+			case "runlock":
+				delete(must, lk(op.Class, true))
+				delete(may, lk(op.Class, true))
+			case "trylock", "tryacquire":
+				*pend = append(*pend, pendingAcq{val: x, lock: lk(op.Class, false), onTrue: true})
+			case "tryrlock":
+				*pend = append(*pend, pendingAcq{val: x, lock: lk(op.Class, true), onTrue: true})
+			case "acquire":
+				la.acquireEdge(fn, x, may, op.Class, record)
+				e := resultOf(x, errResultIndex(x.Call.Signature()))
+				if e == nil {
+					must[lk(op.Class, false)] = true
+					may[lk(op.Class, false)] = true
+				} else {
+					*pend = append(*pend, pendingAcq{val: e, lock: lk(op.Class, false), isError: true})
+				}
+			}
+			return
+		}
+		for _, g := range la.calleeFns(x) {
+			if g == fn {
+				continue
+			}
+			s := la.summary(g)
+			if record {
+				for l := range s.acquires {
+					for h := range may {
+						la.addOrder(h, l, fmt.Sprintf("%s calls %s at %s", fnName(fn), fnName(g), la.p.InstrPos(x)))
+					}
+				}
+			}
+			for k := range s.releases {
+				delete(must, k)
+				delete(may, k)
+			}
+			if len(s.onSuccess) == 0 && len(s.onFailure) == 0 {
+				continue
+			}
+			idx := errResultIndex(x.Call.Signature())
+			if idx < 0 {
+				for k := range s.onSuccess {
+					must[k] = true
+					may[k] = true
+				}
+				continue
+			}
+			if e := resultOf(x, idx); e != nil {
+				*pend = append(*pend, pendingAcq{val: e, isError: true, extra: s.onSuccess})
+				for k := range s.onFailure {
+					may[k] = true
+				}
+			} else {
+				for k := range s.onSuccess {
+					may[k] = true
+				}
+			}
+		}
+	}
+}
+
+func (la *lockAnalysis) deferTargets(d *ssa.Defer) []*ssa.Function {
+	if mc, ok := d.Call.Value.(*ssa.MakeClosure); ok {
+		return []*ssa.Function{mc.Fn.(*ssa.Function)}
+	}
+	if f := d.Call.StaticCallee(); f != nil && la.p.InP(f) && f.Blocks != nil {
+		return []*ssa.Function{f}
+	}
+	if d.Call.IsInvoke() {
+		return la.resolveInvoke(d.Call.Value, d.Call.Method.Name(), 0)
+	}
+	return nil
+}
+
+func (la *lockAnalysis) addOrder(held, acquired, witness string) {
+	h := strings.TrimSuffix(held, "(R)")
+	a := strings.TrimSuffix(acquired, "(R)")
+	if la.order[h] == nil {
+		la.order[h] = map[string]string{}
+	}
+	if _, ok := la.order[h][a]; !ok {
+		la.order[h][a] = witness
+	}
+}
+
+func (la *lockAnalysis) acquireEdge(fn *ssa.Function, at ssa.Instruction, may lockSet, class string, record bool) {
+	if !record {
+		return
+	}
+	for h := range may {
+		la.addOrder(h, class, fmt.Sprintf("%s at %s", fnName(fn), la.p.InstrPos(at)))
+	}
+}
+
+// deferredAt returns the locks released by defers that are registered on every path to ret.
+func (la *lockAnalysis) deferredAt(fn *ssa.Function, ret *ssa.Return) lockSet {
+	out := lockSet{}
+	for d, ls := range la.defInstr[fn] {
+		if dominates(d, ret) {
+			for k := range ls {
+				out[k] = true
+			}
+		}
+	}
+	return out
+}
+
+// analyse runs the intraprocedural dataflow for fn starting from entry set e.
+func (la *lockAnalysis) analyse(fn *ssa.Function, entry lockSet, record bool) (exitsMust, exitsMay map[*ssa.Return]lockSet) {
+	if la.deferred[fn] == nil {
+		la.deferred[fn] = lockSet{}
+	}
+	inMust := map[*ssa.BasicBlock]lockSet{}
+	inMay := map[*ssa.BasicBlock]lockSet{}
+	type edgeKey struct {
+		from *ssa.BasicBlock
+		succ int
+	}
+	outMust := map[edgeKey]lockSet{}
+	outMay := map[edgeKey]lockSet{}
+	if len(fn.Blocks) == 0 {
+		return
+	}
+	exitsMust = map[*ssa.Return]lockSet{}
+	exitsMay = map[*ssa.Return]lockSet{}
+	work := []*ssa.BasicBlock{fn.Blocks[0]}
+	inMust[fn.Blocks[0]] = entry.clone()
+	inMay[fn.Blocks[0]] = entry.clone()
+	visited := map[*ssa.BasicBlock]bool{}
+	iter := 0
+	for len(work) > 0 && iter < 20000 {
+		iter++
+		b := work[0]
+		work = work[1:]
+		must := inMust[b].clone()
+		may := inMay[b].clone()
+		var pend []pendingAcq
+		for _, in := range b.Instrs {
+			la.step(fn, in, must, may, &pend, record && !visited[b])
+			if r, ok := in.(*ssa.Return); ok {
+				exitsMust[r] = must.clone()
+				exitsMay[r] = may.clone()
+			}
+		}
+		visited[b] = true
+		for i, s := range b.Succs {
+			m, y := must.clone(), may.clone()
+			if ifi, ok := lastInstr(b).(*ssa.If); ok {
+				f := edgeFact(ifi, i)
+				for _, p := range pend {
+					locks := lockSet{}
+					if p.lock != "" {
+						locks[p.lock] = true
+					}
+					for k := range p.extra {
+						locks[k] = true
+					}
+					if p.isError {
+						if f.Op != token.ILLEGAL && (vMust(p.val)(f.L) || vIs(p.val)(f.L)) && isNilConst(f.R) {
+							if f.Op == token.EQL {
+								for k := range locks {
+									m[k], y[k] = true, true
+								}
+							}
+						} else {
+							// untested here: may be held
+							for k := range locks {
+								y[k] = true
+							}
+						}
+					} else {
+						if f.Op == token.ILLEGAL && f.L == p.val {
+							if f.Truth == p.onTrue {
+								for k := range locks {
+									m[k], y[k] = true, true
+								}
+							}
+						} else {
+							for k := range locks {
+								y[k] = true
+							}
+						}
+					}
+				}
+			} else {
+				for _, p := range pend {
+					if p.lock != "" {
+						y[p.lock] = true
+					}
+					for k := range p.extra {
+						y[k] = true
+					}
+				}
+			}
+			ek := edgeKey{b, i}
+			outMust[ek], outMay[ek] = m, y
+			// recompute successor in-sets
+			var nm, ny lockSet
+			first := true
+			for _, pb := range s.Preds {
+				for j, ss := range pb.Succs {
+					if ss != s {
+						continue
+					}
+					om, ok := outMust[edgeKey{pb, j}]
+					if !ok {
+						continue
+					}
+					if first {
+						nm, ny = om.clone(), outMay[edgeKey{pb, j}].clone()
+						first = false
+					} else {
+						nm = intersect(nm, om)
+						ny = union(ny, outMay[edgeKey{pb, j}])
+					}
+				}
+			}
+			if nm == nil {
+				continue
+			}
+			old, seen := inMust[s]
+			if !seen || !equalSet(old, nm) || !equalSet(inMay[s], ny) {
+				inMust[s], inMay[s] = nm, ny
+				work = append(work, s)
+			}
+		}
+	}
+	la.inMust[fn], la.inMay[fn] = inMust, inMay
+	return
+}
+
+// summary computes (memoised) the lock summary of fn with an empty entry set.
+func (la *lockAnalysis) summary(fn *ssa.Function) *lockSummary {
+	if s, ok := la.sum[fn]; ok {
+		return s
+	}
+	s := &lockSummary{onSuccess: lockSet{}, onFailure: lockSet{}, releases: lockSet{}, acquires: lockSet{}}
+	la.sum[fn] = s
+	if la.busy[fn] || fn.Blocks == nil {
+		return s
+	}
+	la.busy[fn] = true
+	defer func() { la.busy[fn] = false }()
+	// releases of locks not held: run with a universe entry set and see what disappears
+	universe := lockSet{}
+	for _, c := range calls(fn) {
+		if op, ok := classifyLockCall(c); ok {
+			switch op.Kind {
+			case "unlock", "release":
+				universe[lk(op.Class, false)] = true
+			case "runlock":
+				universe[lk(op.Class, true)] = true
+			case "lock", "rlock", "acquire":
+				s.acquires[op.Class] = true
+			}
+		}
+		if _, isGo := c.(*ssa.Go); isGo {
+			continue
+		}
+		for _, g := range la.calleeFns(c) {
+			if g == fn {
+				continue
+			}
+			gs := la.summary(g)
+			for k := range gs.acquires {
+				s.acquires[k] = true
+			}
+			for k := range gs.releases {
+				universe[k] = true
+			}
+		}
+	}
+	savedMode := la.pairing
+	la.pairing = true
+	exMust, exMay := la.analyse(fn, lockSet{}, false)
+	la.pairing = savedMode
+	first := true
+	for r, m := range exMust {
+		held := m.clone()
+		mayHeld := exMay[r].clone()
+		if canSucceed(r) {
+			if first {
+				s.onSuccess = held
+				first = false
+			} else {
+				s.onSuccess = intersect(s.onSuccess, held)
+			}
+		} else {
+			for k := range mayHeld {
+				s.onFailure[k] = true
+			}
+		}
+	}
+	if len(universe) > 0 {
+		la.pairing = true
+		exMust2, _ := la.analyse(fn, universe, false)
+		la.pairing = savedMode
+		for k := range universe {
+			releasedSomewhere := false
+			for _, m := range exMust2 {
+				if !m[k] {
+					releasedSomewhere = true
+				}
+			}
+			// only count as a release if fn does not itself acquire it first
+			if releasedSomewhere && !s.acquires[strings.TrimSuffix(k, "(R)")] {
+				s.releases[k] = true
+			}
+		}
+		// restore the analysis state for the empty entry set
+		la.analyse(fn, lockSet{}, false)
+	}
+	return s
+}
